@@ -8,7 +8,7 @@ git -C /repo worktree remove --force $WT >/dev/null 2>&1
 git -C /repo worktree add --detach $WT HEAD >/dev/null 2>&1 || { echo "worktree failed"; exit 2; }
 python3 - "$WT/$FILE" "$PAT" "$REP" "$CNT" <<'PY'
 import re,sys
-p,pat,rep,cnt=sys.argv[1],sys.argv[2],sys.argv[3],int(sys.argv[4])
+p,pat,rep,cnt=sys.argv[1],sys.argv[2],sys.argv[3].replace("\\&","&"),int(sys.argv[4])
 s=open(p).read()
 n,k=re.subn(pat,rep,s,count=cnt,flags=re.S)
 if k==0: print("MUTATION DID NOT APPLY"); sys.exit(3)
